@@ -8,7 +8,7 @@ its SerialDisposable has been disposed (it was unsubscribed / auto-detached: the
 cancelled).  Hence when `start()` returns normally every queue of an undisposed ScheduledObserver is empty.
 -/
 
-namespace Replay
+namespace SubjReplay
 open Subj (Action Call upd disposedExn upd_apply)
 variable {Î± : Type}
 
@@ -712,4 +712,4 @@ theorem quiescent_drained {cfg : Cfg} {calls : List (Nat Ã— Call Î±)} {st : St Î
   rw [hq] at this
   simpa using this
 
-end Replay
+end SubjReplay
